@@ -441,6 +441,9 @@ fn gen(rng: &mut Rng, tier: &str) -> Vec<(String, Value)> {
         // thread 0 calls twice
         exhaustive("twice_same_key", rrdp, vec![], vec![vec![5, 5], vec![5]], vec![], vec![0, 1], if thorough { 1 } else { 7 });
     }
+    // RRDP only: thread 1 finds 5 under the mutex (holding the read guard of `updated`) while thread 2 wants to insert 9
+    exhaustive("insert_vs_reader", true, vec![], vec![vec![5], vec![5], vec![9]],
+               vec![0, 0, 1, 1, 0, 0, 0, 0, 0, 0, 0, 0, 2, 2, 2, 2, 2, 2], vec![1, 2], 1);
     drop(exhaustive);
     // (b)/(c) structured random: 2-4 threads, 1-3 calls each, few distinct keys, some dubious; the class names the
     //     branches of the proof's case split the schedule reaches (computed on the shadow)
